@@ -22,12 +22,17 @@ VALUES_QUICK = [7, 0, False, None, 't', True, 1, 2.5, 2.500001]
 VALUES_THOROUGH = [7, 0, 1, 2.5, 't', '', True, False, None, 1.000001, 1e-9, 7.00001, 2.500001, 0.0]
 ORIGINS = ['inmem', 'inmem-warm', 'inmem-warm2', 'xlsx', 'xlsx-warm', 'xlsx-warm2', 'yml', 'json', 'pkl']
 VALUES_SMALL = [7, None, False, 0]
+THREADED = ('chain', 'diamond', 'fan_range', 'unbounded', 'cse_out', 'names', 'range_of_formulas')
 
 
 class P(explore.Problem):
     def __init__(self, fam, origin, values, tmpdir):
         self.fam = fam
         self.spec = fam['spec']
+        # '+thr': the model is built (and warmed) on thread a; every operation of the history is placed on thread a or on
+        # thread b (both fresh per replayed state), so the alphabet doubles: ('thr', 0|1, operation)
+        self.threads = origin.endswith('+thr')
+        origin = origin[:-4] if self.threads else origin
         self.origin = origin
         self.tmp = tmpdir
         self.targets = fam['cells'] + fam['ranges'] + fam['unbounded']
@@ -48,6 +53,8 @@ class P(explore.Problem):
                     self.ops.append(('setrange', rng, tuple(tuple(50 + next(k) for _ in row) for row in mem)))
                     pat = [None, 't', 0, True]
                     self.ops.append(('setrange', rng, tuple(tuple(pat[next(k) % 4] for _ in row) for row in mem)))
+        if self.threads:
+            self.ops = [('thr', t, o) for o in self.ops for t in (0, 1)]
         self.refmemo = {}
         self.path = None
         self.invalidating = 0
@@ -63,6 +70,8 @@ class P(explore.Problem):
 
     def writes(self, op):
         """the (address, value) pairs an operation writes"""
+        if op[0] == 'thr':
+            return self.writes(op[2])
         if op[0] == 'set':
             return [(op[1], op[2])]
         if op[0] == 'setmany':
@@ -91,6 +100,18 @@ class P(explore.Problem):
             m.to_file(self.path)
 
     def new(self):
+        if self.threads:
+            workers = [explore.Worker(), explore.Worker()]
+            st = workers[0].call(self._new)
+            st['workers'] = workers
+            return st
+        return self._new()
+
+    def dispose(self, st):
+        for w in st.get('workers', ()):
+            w.stop()
+
+    def _new(self):
         from pycel.excelcompiler import ExcelCompiler
         if self.origin.startswith('inmem'):
             m = W.compile_inmem(self.spec)
@@ -128,6 +149,8 @@ class P(explore.Problem):
         return self.refmemo[key]
 
     def step(self, st, op):
+        if op[0] == 'thr':
+            return st['workers'][op[1]].call(lambda: self.step(st, op[2]))
         m = st['m']
         if op[0] == 'ev':
             try:
@@ -182,6 +205,8 @@ class P(explore.Problem):
             return ('set', n_inv)
 
     def check(self, st, hist, op, obs):
+        if op[0] == 'thr':
+            return self.check(st, hist, op[2], obs)
         if op[0] == 'recalc':
             if obs[0] == 'exc':
                 ref = self.ref(st['assign'])
@@ -244,7 +269,7 @@ class P(explore.Problem):
         return bool(wrong) and all(m in below and init.get(m, ('x',))[0] == 'ok' and W.veq(x, init[m][1]) for m, x in wrong)
 
     def case(self, hist, op, obs):
-        return dict(kind='history', wb=self.fam['name'], origin=self.origin, fam=_strip(self.fam),
+        return dict(kind='history', wb=self.fam['name'], origin=self.origin + ('+thr' if self.threads else ''), fam=_strip(self.fam),
                     hist=[list(o) for o in hist], op=list(op), observed=jsonable(obs),
                     stale_stored_via_empty=self.stale_stored_via_empty(hist, op, obs))
 
@@ -294,6 +319,9 @@ def run(ctx):
                 jobs.append((f, o, values, 4 if o.startswith('inmem') else 3, 60000))
         for f in family.enumerated():
             jobs.append((f, 'inmem', VALUES_QUICK, 3, 20000))
+        for f in fams:
+            jobs.append((f, 'inmem+thr', VALUES_SMALL, 3, 60000))
+            jobs.append((f, 'inmem-warm+thr', VALUES_SMALL, 3, 60000))
     else:
         values = VALUES_QUICK
         for f in fams:
@@ -307,6 +335,11 @@ def run(ctx):
             jobs.append((f, 'xlsx-warm2', [7, None], 2, 8000))
             for o in ('yml', 'json', 'pkl'):
                 jobs.append((f, o, VALUES_SMALL + [2.5, 2.500001], 3 if o == 'yml' else 2, 8000))
+            if f['name'] in THREADED:
+                # every operation of the history placed on one of two threads (the model is built on the first)
+                f3 = dict(f, inputs=f['inputs'][:2])
+                jobs.append((f3, 'inmem+thr', [7, None], 3, 8000))
+                jobs.append((f3, 'inmem-warm+thr', [7, None], 3, 8000))
     # rotate (never sample): the seed only changes the order jobs are started in
     sharded = []
     for j in jobs:
@@ -332,13 +365,16 @@ def replay(case):
     try:
         p = P(fam, case['origin'], [], tmp)
         st = p.new()
-        hist = [tuple(o) for o in case['hist']]
+        def tup(o):
+            return tuple(tup(x) if isinstance(x, list) and x and x[0] in ('ev', 'set', 'setmany', 'setrange', 'recalc') else x for x in o)
+        hist = [tup(o) for o in case['hist']]
         lines = [f"workbook {fam['name']} origin={case['origin']} cells={fam['spec']['sheets']}"]
         for o in hist:
             lines.append(f'  {o} -> {p.step(st, o)!r}')
-        op = tuple(case['op'])
+        op = tup(case['op'])
         obs = p.step(st, op)
         msg = p.check(st, tuple(hist), op, obs)
+        p.dispose(st)
         lines.append(f'  {op} -> {obs!r}')
         lines.append(f'  verdict: {msg or "agrees with from-scratch compile"}')
         return bool(msg), '\n'.join(lines)
